@@ -310,6 +310,7 @@ func Run(cfg Config, body func()) Result {
 		Locals: map[string]interface{}{}, words: map[interface{}]uint64{}}
 	W = w
 	defer func() { W = nil }()
+	runResets() // package-level variables of the rewritten code start every execution afresh
 	w.spawn("main", func() {
 		body()
 		w.mainDone = true
